@@ -282,11 +282,13 @@ func init() {
 		return TupleV{&Pointer{Obj: obj}, &IfaceV{}}, false
 	})
 	reg("github.com/ethereum/go-ethereum/common.BytesToHash", func(e *Exec, fv *FuncV, args []Value, cc *ssa.CallCommon) (Value, bool) {
-		// left-crops / left-pads to 32 bytes: identity on 32-byte inputs, otherwise an uninterpreted function
+		// SetBytes semantics: 32 bytes -> identity; longer -> the rightmost 32 bytes; shorter -> left-padded with zeros
 		code := e.bytesCode(args[0])
 		c := e.C
-		th := c.App("tohash!", IntSort, code)
-		e.Assume(c.Implies(c.Eq(e.bytesLen(code), c.BVConst(64, 32)), c.Eq(th, code)))
+		ln := e.bytesLen(code)
+		is32 := c.Eq(ln, c.BVConst(64, 32))
+		longer := c.SLT(c.BVConst(64, 32), ln)
+		th := c.Ite(is32, code, c.Ite(longer, c.App("suffix32!", IntSort, code), c.App("leftpad32!", IntSort, code)))
 		return &OpaqueV{Tag: "hash", Data: th}, false
 	})
 	reg("github.com/aukilabs/hagall-common/ncsclient.NewNCSClient", func(e *Exec, fv *FuncV, args []Value, cc *ssa.CallCommon) (Value, bool) {
